@@ -81,6 +81,8 @@ func TestC40(t *testing.T) {
 	m.Gate("invalid_rejected:other-data", nV*2, "other data")
 	m.Gate("invalid_rejected:other-key", nV/2, "other key")
 	m.Gate("invalid_rejected:ecdsa-rs", nV/4, "ECDSA r/s zero, negative, +n, swapped, trailing bytes")
+	m.Gate("invalid_rejected:blob-class", nV, "blob length classes (RSA longer than the modulus, Ed25519 63/65 bytes and S+L, SK trailing bytes)")
+	m.Gate("rsa_short_signature_accepted", 4, "legitimately short RSA signatures (leading zero octet stripped) accepted")
 	m.Gate("witness_checked_package_signatures", nV/2, "signatures of the package's signers decoded and verified independently")
 	m.Gate("foreign_valid_accepted", nV/8, "signatures made by the harness's own signer accepted")
 	m.Gate("sk_flag_values_seen", nS, "every flags byte value presented (counter = cases; each value nS/256 times)")
@@ -324,15 +326,20 @@ func (h *c40) mutations(r *rand.Rand, km *keyMat, other, otherKind ssh.PublicKey
 	h.judge(kind, "blob-truncated", pub, data, withBlob(sig, nil), wantInvalid, base)
 	h.judge(kind, "blob-truncated", pub, data, withBlob(sig, []byte{}), wantInvalid, base)
 	if isRSA && sig.Blob[0] == 0 {
-		// same integer, fewer octets: tolerated by design (code comment), not by the property text
-		h.judge(kind, "rsa-leading-zero-stripped", pub, data, withBlob(sig, sig.Blob[1:]), wantEither, base)
+		// a legitimately short signature (RFC 4253 s6.6 / OpenSSH and the package's documented tolerance)
+		h.judge(kind, "blob-class=rsa-k-1-short", pub, data, withBlob(sig, sig.Blob[1:]), wantValid, base)
 	} else {
 		h.judge(kind, "blob-truncated", pub, data, withBlob(sig, sig.Blob[1:]), wantInvalid, base)
 	}
 	h.judge(kind, "blob-extended", pub, data, withBlob(sig, append(bytes.Clone(sig.Blob), 0)), wantInvalid, base)
 	h.judge(kind, "blob-extended", pub, data, withBlob(sig, append(bytes.Clone(sig.Blob), mon.Bytes(r, 1+r.IntN(8))...)), wantInvalid, base)
 	if isRSA {
-		h.judge(kind, "rsa-leading-zero-added", pub, data, withBlob(sig, append([]byte{0}, sig.Blob...)), wantEither, base)
+		// blob length classes: RFC 8332 / OpenSSH accept at most the modulus length; the same
+		// integer written with extra leading zero octets is another, non-canonical blob
+		for z := 1; z <= 3; z++ {
+			h.judge(kind, fmt.Sprintf("blob-class=rsa-k+%d-leading-zeros", z), pub, data, withBlob(sig, append(make([]byte, z), sig.Blob...)), wantInvalid, base)
+		}
+		h.judge(kind, "blob-class=rsa-zero-plus-truncated", pub, data, withBlob(sig, append([]byte{0}, sig.Blob[:n-1]...)), wantInvalid, base)
 		// s + n: the same residue, out of range
 		if km.wp != nil && km.wp.RSA != nil {
 			s := new(big.Int).SetBytes(sig.Blob)
@@ -343,6 +350,23 @@ func (h *c40) mutations(r *rand.Rand, km *keyMat, other, otherKind ssh.PublicKey
 		}
 	} else {
 		h.judge(kind, "blob-extended", pub, data, withBlob(sig, append([]byte{0}, sig.Blob...)), wantInvalid, base)
+	}
+	if km.wp != nil && km.wp.Ed != nil && len(sig.Blob) == 64 {
+		h.judge(kind, "blob-class=ed25519-65-bytes", pub, data, withBlob(sig, append(bytes.Clone(sig.Blob), 0)), wantInvalid, base)
+		h.judge(kind, "blob-class=ed25519-65-bytes-leading-zero", pub, data, withBlob(sig, append([]byte{0}, sig.Blob...)), wantInvalid, base)
+		h.judge(kind, "blob-class=ed25519-63-bytes", pub, data, withBlob(sig, sig.Blob[:63]), wantInvalid, base)
+		// S + L: the same scalar mod the group order, non-canonical (RFC 8032 s5.1.7 demands S < L)
+		L, _ := new(big.Int).SetString("7237005577332262213973186563042994240857116359379907606001950938285454250989", 10)
+		S := new(big.Int)
+		le := bytes.Clone(sig.Blob[32:])
+		slices.Reverse(le)
+		S.SetBytes(le)
+		S.Add(S, L)
+		if S.BitLen() <= 256 {
+			sb := S.FillBytes(make([]byte, 32))
+			slices.Reverse(sb)
+			h.judge(kind, "blob-class=ed25519-S-plus-L", pub, data, withBlob(sig, append(bytes.Clone(sig.Blob[:32]), sb...)), wantInvalid, base)
+		}
 	}
 	// Rest on a non-SK signature: not part of the blob, not mentioned by the docs
 	h.judge(kind, "rest-nonempty", pub, data, &ssh.Signature{Format: sig.Format, Blob: sig.Blob, Rest: mon.Bytes(r, 1+r.IntN(8))}, wantEither, base)
@@ -616,7 +640,10 @@ func (h *c40) rsaShort(i int64, r *rand.Rand) {
 		if e := fm.Verify(km.wp, sig.Format, sig.Blob, nil, data); e != nil {
 			h.m.Violation("signer-produced-invalid-signature:rsa1024:"+algo, map[string]any{"witness_error": e.Error()})
 		}
-		h.judge("rsa1024", "rsa-leading-zero-stripped", km.pub, data, withBlob(sig, bytes.TrimLeft(sig.Blob, "\x00")), wantEither, nil)
+		if h.judge("rsa1024", "blob-class=rsa-k-1-short", km.pub, data, withBlob(sig, bytes.TrimLeft(sig.Blob, "\x00")), wantValid, nil) {
+			h.m.Count("rsa_short_signature_accepted", 1)
+		}
+		h.judge("rsa1024", "blob-class=rsa-zero-plus-short", km.pub, data, withBlob(sig, append([]byte{0}, sig.Blob...)), wantInvalid, nil)
 		// stripped AND one more octet removed: another integer
 		h.judge("rsa1024", "blob-truncated", km.pub, data, withBlob(sig, sig.Blob[2:]), wantInvalid, nil)
 		return
@@ -823,7 +850,8 @@ func (h *c40) skCase(i int64, r *rand.Rand) {
 	for _, n := range []int{0, 1, 4} {
 		h.judge(kind, "sk-rest-truncated", pub, data, &ssh.Signature{Format: sig.Format, Blob: sig.Blob, Rest: sig.Rest[:n]}, wantInvalid, ex)
 	}
-	h.judge(kind, "sk-rest-extended", pub, data, &ssh.Signature{Format: sig.Format, Blob: sig.Blob, Rest: append(bytes.Clone(sig.Rest), 0)}, wantEither, ex)
+	h.judge(kind, "blob-class=sk-trailing-bytes", pub, data, &ssh.Signature{Format: sig.Format, Blob: sig.Blob, Rest: append(bytes.Clone(sig.Rest), 0)}, wantInvalid, ex)
+	h.judge(kind, "blob-class=sk-trailing-bytes", pub, data, &ssh.Signature{Format: sig.Format, Blob: sig.Blob, Rest: append(bytes.Clone(sig.Rest), mon.Bytes(r, 1+r.IntN(8))...)}, wantInvalid, ex)
 	// cross-protocol: the same private key used as a plain key
 	if isEC {
 		plain, err := ssh.NewPublicKey(&tok.ec.PublicKey)
